@@ -167,7 +167,9 @@ def run(facts, rep, tier):
              "negated disjunction of case-folded scheme-prefix tests.")
     rep.rule("C05-R4", "Handler plumbing: each backlink consumer reads the right reference kind(s) (block / inline) and builds a location's "
              "uri and line from the same referrer node.")
+    rep.rule("C05-R5", "= C04-R6: the reference index is only unioned into, per key (re-indexing one note must not drop the other notes' references to the same target).")
     c04.rule_r2(facts, rep, "C05-R1")
+    c04.rule_r6(facts, rep, "C05-R5")
     rule_r2(facts, rep)
     rule_r3(facts, rep)
     rule_r4(facts, rep)
